@@ -19,7 +19,7 @@ CHECKS = {
   technique="property-based testing (rapid) of schedules: generated perturbation plans + model/snapshot oracle + Go race detector"),
  "C06": dict(
   level="fault_enumeration",
-  text="Per generated file EVERY byte offset is cut and every enumerated damage class is applied at the header block and first/last data block (thorough: every block), each scan isolated in a child process with a hang watchdog; readers that fail with a transport error instead of ending are cut at every block boundary and every seventh offset; ~8 000 scans per quick run. The files themselves (10 small ones quick, 120 thorough) are sampled; thorough adds native fuzzing of the byte stream for crash/hang only.",
+  text="Per generated file EVERY byte offset is cut and every enumerated damage class is (incl. a well-formed 64 KiB blob header and negative string references) applied at the header block and first/last data block (thorough: every block), each scan isolated in a child process with a hang watchdog; readers that fail with a transport error instead of ending are cut at every block boundary and every seventh offset; ~8 000 scans per quick run. The files themselves (10 small ones quick, 120 thorough) are sampled; thorough adds native fuzzing of the byte stream for crash/hang only.",
   note=PBF_NOTE + " A zlib bit flip counts as damage only if Go's compress/zlib rejects the stream or inflates it differently. One listed known finding (zlib stream end not verified by the czlib dependency) is excluded by construction and witnessed deterministically.",
   technique="fault enumeration driven by property-based generation (rapid): exhaustive cut points + damage-class x position matrix per file, prefix/err oracle from the model, child-process isolation; native go fuzzing as robustness supplement"),
  "C07": dict(
@@ -34,7 +34,7 @@ CHECKS = {
   technique="property-based testing (rapid): metamorphic subsequence relation against the model + snapshot immutability oracle"),
  "C09": dict(
   level="exploration",
-  text="500 generated files per quick run; counters checked after EVERY Scan (all stop positions of each file) and a second scanner started at EVERY reportable block offset, compared with the model's remaining objects; resumed scanners use up to 16 decoders, may call Header(), and one case in four resumes while the first scanner is still open and waiting for input; files are sampled.",
+  text="500 generated files per quick run; counters checked after EVERY Scan (all stop positions of each file) and a second scanner started at EVERY reportable block offset, compared with the model's remaining objects; resumed scanners read a buffer cut at the offset or a seekable whole-file reader positioned there, use up to 16 decoders, may call Header(), and one case in four resumes while the first scanner is still open and waiting for input; files are sampled.",
   note=PBF_NOTE + " Block byte offsets come from the harness encoder.",
   technique="property-based testing (rapid) with per-file enumeration of all stop positions and resume offsets; oracle = encoder offsets + model suffix"),
  "C10": dict(
@@ -44,7 +44,7 @@ CHECKS = {
   technique="property-based testing (rapid) + exhaustive boundary enumeration + native fuzzing of the parsers; round-trip and reference-model oracles"),
  "C03": dict(
   level="exploration",
-  text="8 000 documents per quick run (<osm>, osmChange, augmented diff) rendered by an independent XML writer with randomised layout; whole-document decode compared with the model per kind and the streaming scanner with the model in document order. Sampled over the document/layout space.",
+  text="8 000 documents per quick run (<osm>, osmChange, augmented diff) rendered by an independent XML writer with randomised layout (unknown attributes and elements, also inside diff actions); whole-document decode compared with the model per kind and the streaming scanner with the model in document order. Sampled over the document/layout space.",
   note="Trusts the harness's own XML writer and model (internal/osmdoc), which take element and attribute names from the OSM XML format description; Go's encoding/xml tokenizer is trusted. An absent attribute means the field's zero value.",
   technique="property-based testing (rapid): independent writer as generator, model oracle + differential streaming-vs-whole-document"),
  "C04": dict(
@@ -54,7 +54,7 @@ CHECKS = {
   technique="property-based testing (rapid): round-trip oracle against the generating model + scanner differential"),
  "C05": dict(
   level="exploration",
-  text="9 500 cases per quick run: OSM values round-tripped under five codec configurations (incl. only one half of a custom codec installed), by pointer and by value, with a generic shape check of the output, and independently written osmjson documents (version number/string/absent, unknown keys, Overpass/API styles) decoded and compared with the model. Sampled.",
+  text="9 500 cases per quick run: OSM values round-tripped under five codec configurations (incl. only one half of a custom codec installed), by pointer and by value, with a generic shape check of the output, and independently written osmjson documents (version number - value must survive up to 17 digits - /string/absent, unknown keys, Overpass/API styles) decoded and compared with the model; an element that lost its type must be judged the same alone and after typed elements. Sampled.",
   note="Custom codecs are harness-written implementations over encoding/json (json-iterator cannot run here); tag keys unique; codec variables are process-global and restored per case.",
   technique="property-based testing (rapid): shape predicate on generically parsed output, round-trip and independent-writer oracles, codec differential with call counting"),
  "C11": dict(
@@ -94,12 +94,12 @@ CHECKS = {
   technique="property-based testing (rapid): rule oracle on the model + metamorphic option relations + immutability/determinism checks"),
  "C18": dict(
   level="exploration",
-  text="Exhaustive sweep (about 38 000 cases) over the harness's transcription of the published rule table: every key x value class x area class x node-list shape, all ordered key pairs, relations; plus 20 000 random tag sets with permutation invariance.",
+  text="Exhaustive sweep (about 38 000 cases) over the harness's transcription of the published rule table: every key x value class x area class x node-list shape (incl. open ways whose end ids agree in their low bits), all ordered key pairs, relations; plus 20 000 random tag sets with permutation invariance.",
   note="Trusts the harness's transcription of the Overpass-turbo polygon-features list (26 keys); tag sets have unique keys.",
   technique="exhaustive enumeration of the rule table + property-based testing (rapid) of random tag sets; direct rule-text oracle"),
  "C19": dict(
   level="exploration",
-  text="10 000 generated replication directories x query times per quick run served by an in-process RoundTripper and (150 cases) by a gzip-compressing loopback server: result compared with the first available state at or after t, every request path validated, request count bounded.",
+  text="10 000 generated replication directories x query times per quick run served by an in-process RoundTripper and (150 cases) by a gzip-compressing loopback server: a fifth of them far directories (second path level, few states, query exactly on a state's timestamp): result compared with the first available state at or after t, every request path validated, request count bounded.",
   note="Current state always exists; timestamps increase; budget 8*(log2(cur)+2)+4*missing+16; queries before every state only with missing prefixes <= 2000 files.",
   technique="property-based testing (rapid) with fault injection (404 patterns): reference search oracle + request-path and request-budget invariants"),
  "C20": dict(
